@@ -69,6 +69,23 @@ def cases(draw):
                 {"enteringExcludedRegionGcode": "M117 in"}, {"exitingExcludedRegionGcode": "M117 out\nM400"},
                 {"extendedExcludeGcodes": [{"gcode": "M117", "mode": "first", "description": ""}, {"gcode": "M106", "mode": "merge", "description": ""}]},
             ]))])
+    if regions and draw(st.integers(0, 2)) == 0:
+        # an aborted print by construction: deferred codes configured, tool inside a region, a few state-changing commands,
+        # then (perhaps) an end event - every per-print field is dirty at the PRINT_STARTED that follows
+        hist.append(["settings", {"extendedExcludeGcodes": [{"gcode": "M117", "mode": draw(st.sampled_from(["first", "last"])), "description": ""},
+                                                             {"gcode": "M106", "mode": "merge", "description": ""}]}])
+        if not any(h == ["event", "PRINT_STARTED"] for h in hist) or draw(st.booleans()):
+            hist += [["event", "PRINT_STARTED"]]
+        hist += [["g", "G28"], ["g", "G1 X1 Y1 Z0.2 F3000"]]
+        tx, ty = rnd.target("in", draw(st.integers(0, 3)), draw(st.integers(0, 100)), draw(st.integers(0, 100)))
+        hist.append(["g", "G1 X%s Y%s" % (gen.fmt(tx), gen.fmt(ty))])
+        for _ in range(draw(st.integers(1, 5))):
+            hist.append(draw(st.sampled_from([["g", "M117 left over"], ["g", "M106 S99"], ["g", "G10"], ["g", "G1 E-1 F1800"], ["g", "G20"],
+                                              ["g", "G91"], ["g", "G1 E2"], ["g", "G11"], ["at", "ExcludeRegion", "off"], ["g", "G92 E7"],
+                                              ["g", "G1 Z4"], ["g", "M206 X3"], ["g", "G1 F7200"]])))
+        tail = draw(st.sampled_from([None, None, "PRINT_FAILED", "PRINT_CANCELLED", "PRINT_DONE", "ERROR", "PRINT_PAUSED", "FILE_SELECTED"]))
+        if tail:
+            hist.append(["event", tail])
     prog = list(base["prog"])
     if draw(st.integers(0, 2)) == 0 and len(prog) > 1 and prog[1] == ["g", "G1 X1 Y1 Z0.2 F3000"]:
         prog[1] = ["g", "G1 X1 Y1 Z0.2"]      # no feed rate given before the first exit: exposes a stale one
